@@ -195,11 +195,18 @@ def verify_xdis_origin():
 class FixedHeadroom:
     """Give the code under test the same remaining recursion depth wherever the harness
     happens to call it from, so that the depth at which a nesting bomb hits RecursionError
-    (and hence step counts and error texts) is a function of the input only."""
+    (and hence step counts and error texts) is a function of the input only.
+
+    A change that the code under test itself makes to the recursion limit and leaves behind
+    is *not* masked: it is carried over to the next call in the same process (LEAK), exactly
+    as it would accumulate in a process that does not use this wrapper."""
+
+    LEAK = 0
 
     def __init__(self, headroom=950):
         self.headroom = headroom
         self.saved = None
+        self.set_to = None
 
     def __enter__(self):
         f = sys._getframe(1)
@@ -208,11 +215,17 @@ class FixedHeadroom:
             n += 1
             f = f.f_back
         self.saved = sys.getrecursionlimit()
-        sys.setrecursionlimit(n + self.headroom)
+        self.set_to = n + self.headroom + FixedHeadroom.LEAK
+        sys.setrecursionlimit(self.set_to)
         return self
 
     def __exit__(self, *a):
-        sys.setrecursionlimit(self.saved)
+        cur = sys.getrecursionlimit()
+        if cur != self.set_to:
+            FixedHeadroom.LEAK += cur - self.set_to
+            if FixedHeadroom.LEAK < -self.headroom + 50:
+                FixedHeadroom.LEAK = -self.headroom + 50
+        sys.setrecursionlimit(max(self.saved, 50))
         return False
 
 
